@@ -47,3 +47,12 @@ def run(cx):
     _run2(cx)
     SR.sm2_scalar(cx)
     SR.curve_predicates(cx)
+
+
+_run3 = run
+
+
+def run(cx):
+    from .. import rules_s as S
+    _run3(cx)
+    S.carry_chain(cx, 'A-CARRY', ('gm_sm2::',), 10)
